@@ -155,6 +155,18 @@ func RoundTrip(src []byte, e, pre, mode int) ([]byte, error) {
 			return nil, err
 		}
 		fr := decorator.NewRestorer().FileRestorer()
+		for i := 0; i < pre; i++ {
+			// the same FileRestorer value has restored other files (with comments) before
+			ff, err := decorator.Parse(filler)
+			if err != nil {
+				return nil, err
+			}
+			var sink bytes.Buffer
+			fr.Name = fmt.Sprintf("earlier%d.go", i)
+			if err := fr.Fprint(&sink, ff); err != nil {
+				return nil, err
+			}
+		}
 		fr.Name = "restored.go"
 		if err := fr.Fprint(&buf, f); err != nil {
 			return nil, err
